@@ -259,6 +259,8 @@ def run(repo, rep, tier):
     r3 = rep.rule("R15.3", "closed key-set gates whose failure edge only raises; no fall-through return", floor=24 + 19)
     r5 = rep.rule("R15.5", "JSON values are used only under a validation whose type agrees with the use", floor=60)
     # a child fragment must be parsed by the factory named by ITS OWN type tag: otherwise a document whose tag and payload disagree is accepted
+    rep.borrow(repo, "C04", {"R4.1": ("R15.8", "every JSON object the writer emits is read behind a closed hasKeys gate (no foreign key is silently dropped)", 100)},
+               keep=lambda f: "hasKeys gate" in f.message or "gate" in f.stmt)
     rep.borrow(repo, "C04", {"R4.3": ("R15.7", "every child fragment is parsed by the factory looked up under its own type tag", 25)},
                keep=lambda f: "factory looked up" in f.message)
     r6 = rep.rule("R15.6", "ed() re-validates entries/ranges; header and version gate raise", floor=19 + 4)
@@ -721,6 +723,28 @@ def rule_ed(repo, rep, r6):
         r6.ob(found, f"{f.qualname}: negative entries rejected")
         if not found:
             rep.finding("R15.6", f, f.node, "ed() does not reject negative entries with a raise", stmt="entries < 0 check")
+        # reader <-> ed agreement on the representation of `entries`: where the reader hands the raw JSON value on (it may be one of
+        # the strings 'nan'/'inf'/'-inf' that the reader itself admits), ed() must convert before it compares
+        rd = repo.own_method(c, "fromJsonFragment")
+        raw_entries = False
+        for call in [x for x in walk_local_stmt(rd.node) if isinstance(x, ast.Call) and ast.unparse(x.func).endswith(".ed") and x.args]:
+            a0 = call.args[0]
+            if isinstance(a0, ast.Name):
+                defs = [x.value for x in walk_local_stmt(rd.node) if isinstance(x, ast.Assign) and any(
+                    isinstance(t, ast.Name) and t.id == a0.id for t in x.targets)]
+                if any(not (isinstance(d, ast.Call) and isinstance(d.func, ast.Name) and d.func.id in ("float", "floatOrNan")) for d in defs):
+                    raw_entries = True
+            elif not (isinstance(a0, ast.Call) and isinstance(a0.func, ast.Name) and a0.func.id == "float"):
+                raw_entries = True
+        if raw_entries and f.params:
+            ep = f.params[0]
+            bare = [x for x in walk_local_stmt(f.node) if isinstance(x, ast.Compare) and len(x.ops) == 1 and isinstance(
+                x.ops[0], (ast.Lt, ast.LtE, ast.Gt, ast.GtE)) and any(isinstance(o, ast.Name) and o.id == ep for o in [x.left, x.comparators[0]])]
+            r6.ob(not bare, f"{f.qualname}: `{ep}` arrives unconverted from the reader and is compared through float()")
+            for x in bare:
+                rep.finding("R15.6", f, x, f"{c.name}.fromJsonFragment passes the JSON value of `{ep}` on unconverted (it may be one of the strings "
+                            f"'nan'/'inf'/'-inf' that both the reader and ed() admit), but ed() evaluates `{ast.unparse(x)}` on it: a document that "
+                            f"toJson itself produces for non-finite entries is rejected with TypeError", stmt=f"ed compares raw {ep}: {ast.unparse(x)}")
         # class-specific range re-validation, derived from __init__: every `if <cmp on params>: raise ValueError` of
         # __init__ on a parameter that ed() also takes must be present in ed() as well
         init = repo.own_method(c, "__init__")
